@@ -953,6 +953,37 @@ def gen_c14(rng, thorough=False):
     return scs
 
 
+def gen_pty_client(rng, thorough=False):
+    """black-box serial slice, client role: the RTU channel task on a pseudo-terminal (tokio_serial, no hook); every
+    transmitted request is answered (a genuine reply or an exception), nothing waits for a timer"""
+    lat = [x for x in request_lattice(rng) if len(x["values"]) <= 3000]
+    rng.shuffle(lat)
+    lat = lat[:160 if thorough else 32] + [rand_request(rng, 0, unit=1) for _ in range(80 if thorough else 32)]
+    rng.shuffle(lat)
+    scs = []
+    for i in range(0, len(lat), 16):
+        steps = [cmd("enable")]
+        for j, st in enumerate(lat[i:i + 16]):
+            st = dict(st)
+            st["r"] = j + 1
+            st["style"] = rng.choice(["future", "callback"])
+            st["unit"] = rng.choice([1, 2, 17, 247])
+            st["timeout"] = 4000
+            steps.append(st)
+            limit = {1: 2000, 2: 2000, 3: 125, 4: 125, 5: 1, 6: 1, 15: 1968, 16: 123}[st["fc"]]
+            n = len(st["values"]) if st["fc"] in (15, 16) else (1 if st["fc"] in (5, 6) else st["count"])
+            valid = 1 <= n <= limit and st["start"] + n <= 65536 and st["start"] <= 65535
+            if valid:
+                if rng.random() < 0.2:
+                    steps.append(reply([st["fc"] + 128, rng.choice([1, 2, 3, 4, 6])], unit=st["unit"]))
+                else:
+                    steps.append(reply(good_reply(rng, st), unit=st["unit"]))
+            if rng.random() < 0.1:
+                steps.append(cmd("decode", level=rng.choice(DECODES)))
+        scs.append(scenario(len(scs), steps, framing="rtu", mode="pty", decode=rng.choice(DECODES), tag="pty-client"))
+    return scs
+
+
 def to_serial(scs, tagp="serial-"):
     """the same scripts for the RTU channel task: a `connector` result becomes the state of the port at the next
     attempt to open it (opening is synchronous), replies are RTU frames, there is no consecutive-timeout limit"""
